@@ -1,0 +1,134 @@
+//! One recursion budget for the whole compiler.
+//!
+//! The parsers are recursive descent and the passes after them (constant
+//! folding, validation, emission, and finally dropping the tree) recurse over
+//! what the parsers built, so how deep the source nests decides how much stack
+//! a compilation needs. Every routine that puts one construct inside another
+//! takes a [`Level`] for as long as it is inside; when more than
+//! [`MAX_NESTING`] are held, or when they have already cost [`STACK_BUDGET`]
+//! bytes of stack, the source is refused instead of overflowing the stack.
+
+use std::cell::Cell;
+
+use crate::{
+    ast::{Flow, Node, ParsedStory},
+    error::CompilerError,
+};
+
+/// Deepest nesting that is compiled: braces, parentheses, operators, choices
+/// and `else` chains inside one another, and runs of choices one after the
+/// other in a weave (the emitter puts what follows a run inside a container of
+/// its own). Authored stories stay below ten; a story twice as deep as this
+/// could not be loaded anyway, the runtime's JSON reader stops at 128 nested
+/// containers.
+pub(crate) const MAX_NESTING: usize = 64;
+
+/// Stack the held levels may use. Unoptimised builds spend tens of kilobytes
+/// per level, so there the stack runs out long before the level count does;
+/// half of the 2 MiB a spawned thread gets by default is left for the rest.
+const STACK_BUDGET: usize = 1024 * 1024;
+
+thread_local! {
+    static HELD: Cell<usize> = const { Cell::new(0) };
+    static OUTERMOST: Cell<usize> = const { Cell::new(0) };
+}
+
+/// One level of nesting, given back when dropped.
+pub(crate) struct Level(());
+
+pub(crate) fn too_deep() -> CompilerError {
+    CompilerError::invalid_source(format!(
+        "nesting too deep: more than {MAX_NESTING} levels of braces, parentheses, operators, \
+         choices or else-branches inside one another (a run of choices after another run in \
+         the same weave counts as inside it)"
+    ))
+}
+
+#[inline(never)]
+fn stack_position() -> usize {
+    let marker = 0u8;
+    std::hint::black_box(&marker) as *const u8 as usize
+}
+
+pub(crate) fn enter() -> Result<Level, CompilerError> {
+    let position = stack_position();
+    HELD.with(|held| {
+        if held.get() == 0 {
+            OUTERMOST.with(|outermost| outermost.set(position));
+        } else if held.get() >= MAX_NESTING
+            || OUTERMOST.with(|outermost| outermost.get().abs_diff(position)) > STACK_BUDGET
+        {
+            return Err(too_deep());
+        }
+        held.set(held.get() + 1);
+        Ok(Level(()))
+    })
+}
+
+impl Drop for Level {
+    fn drop(&mut self) {
+        HELD.with(|held| held.set(held.get().saturating_sub(1)));
+    }
+}
+
+/// The emitter nests more than the source shows: whatever follows a run of
+/// choices goes into a gather container inside the current one, and so does
+/// whatever follows the next run inside that. Count those along with the
+/// nesting that is visible in the tree, before any pass walks the story.
+pub(crate) fn check_weave_depth(story: &ParsedStory) -> Result<(), CompilerError> {
+    fn flows(list: &[Flow]) -> Result<(), CompilerError> {
+        for flow in list {
+            nodes(&flow.nodes, 1)?;
+            flows(&flow.children)?;
+        }
+        Ok(())
+    }
+    // Recursion here follows the tree the parser built, which the levels taken
+    // while parsing have kept shallow.
+    fn nodes(list: &[Node], mut depth: usize) -> Result<(), CompilerError> {
+        let mut previous_choice_level = None;
+        for node in list {
+            let choice_level = match node {
+                Node::Choice(choice) => Some(choice.nesting_level),
+                _ => None,
+            };
+            // A run of choices ends where the level changes or something else follows.
+            if previous_choice_level.is_some() && previous_choice_level != choice_level {
+                depth += 1;
+            }
+            previous_choice_level = choice_level;
+            if depth > MAX_NESTING {
+                return Err(too_deep());
+            }
+
+            match node {
+                Node::Choice(choice) => nodes(&choice.body, depth + 1)?,
+                Node::Conditional {
+                    when_true,
+                    when_false,
+                    ..
+                } => {
+                    nodes(when_true, depth + 1)?;
+                    if let Some(when_false) = when_false {
+                        nodes(when_false, depth + 1)?;
+                    }
+                }
+                Node::SwitchConditional { branches, .. } => {
+                    for (_, body) in branches {
+                        nodes(body, depth + 1)?;
+                    }
+                }
+                Node::Sequence(sequence) => {
+                    for branch in &sequence.branches {
+                        nodes(branch, depth + 1)?;
+                    }
+                }
+                _ => {}
+            }
+        }
+        Ok(())
+    }
+
+    nodes(story.root(), 1)?;
+    flows(story.flows())
+}
